@@ -9,7 +9,7 @@ Open Scope Z_scope.
 (* what the constructor does to bounds that are already in range: it keeps them or widens them to everything *)
 Lemma mk_bounds w s l u r :
   0 < w < SHIFT_LIMIT -> 0 <= l < 2 ^ w -> 0 <= u < 2 ^ w ->
-  mk w s l u = Ok r -> (lb r = l /\ ub r = u) \/ (lb r = 0 /\ ub r = 2 ^ w - 1 /\ l = (u + 1) mod 2 ^ w).
+  mk w s l u = Ok r -> (lb r = l /\ ub r = u) \/ (lb r = 0 /\ ub r = 2 ^ w - 1 /\ l = (u + 1) mod 2 ^ w /\ s = 1).
 Proof.
   intros Hw Hl Hu. unfold mk, normalize. cbn [bot bits lb ub stride].
   rewrite pow_ok by lia. cbn [bind]. rewrite !land_mask by lia.
@@ -17,9 +17,10 @@ Proof.
   rewrite (Z.mod_small l), (Z.mod_small u) by lia.
   destruct ((l =? (u + 1) mod 2 ^ w) && ((if l =? u then 0 else s) =? 1)) eqn:E.
   - rewrite max_int_ok by lia. cbn [bind fst snd].
-    apply andb_true_iff in E. destruct E as [E _]. apply Z.eqb_eq in E.
-    destruct ((if l =? u then 0 else s) <? 0); [discriminate|].
-    intros H; inversion H; subst r; cbn [lb ub]. right. split; [reflexivity|]. split; [lia|exact E].
+    apply andb_true_iff in E. destruct E as [E E1]. apply Z.eqb_eq in E. apply Z.eqb_eq in E1.
+    destruct (l =? u); [discriminate E1|].
+    destruct (s <? 0); [discriminate|].
+    intros H; inversion H; subst r; cbn [lb ub]. right. split; [reflexivity|]. split; [lia|]. split; [exact E|exact E1].
   - cbn [bind fst snd].
     destruct ((if l =? u then 0 else s) <? 0); [discriminate|].
     intros H; inversion H; subst; cbn [lb ub]. left; lia.
@@ -61,14 +62,14 @@ Proof.
       rewrite Z.mod_small in Hx by nia.
       exists (lb A, ub A). split; [left; reflexivity|]. cbn [fst snd].
       assert (k <= q) by nia.
-      destruct EA as [[-> ->]|(-> & -> & _)]; nia.
+      destruct EA as [[-> ->]|(-> & -> & _ & _)]; nia.
     + (* the member wrapped: second half *)
       rewrite (mod_plus n) in Hx by nia.
       exists (lb B, ub B). split; [right; left; reflexivity|]. cbn [fst snd].
       assert (Hkq : q + 1 <= k) by nia.
       assert (Hsn : stride a < n) by nia.
       rewrite (mod_plus n) in EB by nia.
-      destruct EB as [[-> ->]|(-> & -> & _)]; nia.
+      destruct EB as [[-> ->]|(-> & -> & _ & _)]; nia.
   - apply Z.ltb_ge in E. inversion Hbs; subst bs; clear Hbs. cbn [map].
     exists (lb a, ub a). split; [left; reflexivity|]. cbn [fst snd].
     rewrite Z.mod_small in Hks by lia. rewrite Z.mod_small in Hx by nia. nia.
@@ -337,13 +338,13 @@ Proof.
       * assert (j <= q) by nia.
         apply mk_bounds in EA; [|lia|lia|nia].
         exists A. split; [left; reflexivity|].
-        destruct EA as [[-> ->]|(_ & _ & Etop)].
+        destruct EA as [[-> ->]|(_ & _ & Etop & _)].
         -- repeat split; try nia; left; nia.
         -- (* TOP cannot arise here *) exfalso. rewrite Z.mod_small in Etop by nia. nia.
       * assert (q + 1 <= j) by nia.
         apply mk_bounds in EB; [|lia|nia|lia].
         exists B. split; [right; left; reflexivity|].
-        destruct EB as [[-> ->]|(_ & _ & Etop)].
+        destruct EB as [[-> ->]|(_ & _ & Etop & _)].
         -- repeat split; try nia; right; nia.
         -- exfalso. destruct (Z.eq_dec (ub p + 1) (2 ^ bits p)) as [Ee|Ee].
            ++ rewrite Ee, Z.mod_same in Etop by lia. nia.
